@@ -154,27 +154,32 @@ def type_text(src, kind, name, manifest):
     """D2: the definition with attributes and comments removed, fields verbatim."""
     first, bo, bc = find_type(src, kind, name)
     st = src.st
-    out = []
     dropped = []
+    skip = []          # (start, end) character ranges to drop: attributes
     i = first
     while i <= bc:
         t = st[i]
         if t.text == '#' and st[i + 1].text == '[':
             j = match_close(st, i + 1)
             dropped.append(src.text[t.start:st[j].end])
+            skip.append((t.start, st[j].end))
             i = j + 1
             continue
-        out.append(t)
         i += 1
-    # re-join with original spacing approximated: one space between tokens, newline after , { }
-    parts = []
-    for t in out:
-        parts.append(t.text)
-        if t.text in '{,;':
-            parts.append('\n')
-        else:
-            parts.append(' ')
+    lo, hi = st[first].start, st[bc].end
+    for t in src.all:
+        if t.kind == 'comment' and lo <= t.start < hi:
+            skip.append((t.start, t.end))
+    skip.sort()
+    parts, pos = [], lo
+    for a, b in skip:
+        if a < pos:
+            continue
+        parts.append(src.text[pos:a])
+        pos = b
+    parts.append(src.text[pos:hi])
     text = ''.join(parts)
+    text = re.sub(r'\n\s*\n', '\n', text)
     raw = src.text[st[first].start:st[bc].end]
     manifest.append({
         'op': 'extract-type', 'file': src.display, 'item': '%s %s' % (kind, name),
